@@ -81,6 +81,14 @@ pub fn yield_to_foreign() {
     }
 }
 
+/// How many simulated threads other than the caller have not finished yet.
+pub fn live_foreign_threads() -> usize {
+    match kernel::current() {
+        Some((k, me)) => k.live_others(me),
+        None => 0,
+    }
+}
+
 /// Run `fut` to completion on a fresh deterministic runtime owned by the calling simulated
 /// thread (which must be thread 0 of a run started with `external_clock`).
 pub fn block_on<F: Future>(budget: Duration, fut: F) -> Result<F::Output, Hang> {
@@ -319,6 +327,13 @@ pub mod tokio_mpsc {
         pub fn blocking_send(&self, value: T) -> Result<(), SendError<T>> {
             super::block_until(|| self.0.capacity() > 0 || self.0.is_closed());
             self.0.blocking_send(value)
+        }
+        /// (tokio's own; a reserved slot counts against the capacity until it is used or dropped)
+        pub fn try_reserve_owned(self) -> Result<tokio::sync::mpsc::OwnedPermit<T>, TrySendError<Sender<T>>> {
+            self.0.try_reserve_owned().map_err(|e| match e {
+                TrySendError::Full(s) => TrySendError::Full(Sender(s)),
+                TrySendError::Closed(s) => TrySendError::Closed(Sender(s)),
+            })
         }
         pub fn is_closed(&self) -> bool {
             self.0.is_closed()
